@@ -32,6 +32,27 @@ def programs(tier: str):
     return out
 
 
+def hash_label(label: str) -> int:
+    try:
+        return int(label.rsplit("/", 1)[1])
+    except ValueError:
+        return 0
+
+
+def string_entry_points(src: str):
+    import ast
+    from numba_scfg.core.datastructures.ast_transforms import AST2SCFG, SCFG2AST
+    from ..kernel import guarded
+    try:
+        scfg = guarded(AST2SCFG, src)
+        guarded(scfg.restructure)
+        return ("ok", ast.unparse(guarded(SCFG2AST, src, scfg)))
+    except NotImplementedError as e:
+        return ("refused", str(e))
+    except Exception as e:  # noqa: BLE001
+        return ("raised", f"{type(e).__name__}: {e}")
+
+
 def diff_signature(o1, o2) -> str:
     """Coarse signature of a behavioural difference (part of the fingerprint)."""
     import collections
@@ -65,6 +86,19 @@ def check_program(label: str, src: str, acc: Acc, horizon: int, raising: bool = 
         acc.viol(PROP, f"{PROP}/does-not-compile", f"{label}: regenerated source does not define transformed_f: {type(e).__name__}: {e}",
                  (src,), case={"label": label, "source": src, "regenerated": p.text})
         return
+    # history + entry points: the same text converted a second (and third) time through the public string entry points
+    # AST2SCFG / SCFG2AST must regenerate exactly the text the first conversion (transformer classes, parsed tree) gave
+    rebuild = label.startswith(("S0", "S1", "T/", "X")) or (label.startswith("S2/marked") and hash_label(label) % 4 == 0) \
+        or horizon > 6
+    for attempt in ((2, 3) if rebuild else ()):
+        again = string_entry_points(src)
+        acc.counters["string_entry_point_rebuilds"] += 1
+        if again != ("ok", p.text):
+            what = f"{again[0]}: {again[1][:160]}" if again[0] != "ok" else "different text"
+            acc.viol(PROP, f"{PROP}/rebuild-differs", f"{label}: conversion #{attempt} of the same source through AST2SCFG/restructure/SCFG2AST gives "
+                     f"{what}; the first conversion succeeded", (src,), shape=source_shapes(src),
+                     case={"label": label, "source": src, "regenerated": p.text, "horizon": horizon, "raising": raising})
+            break
     diffs = []
 
     def on_diff(choices, o1, o2):
